@@ -19,7 +19,7 @@ ASSUME = [
     "linearization points are chosen by TLC between call and return events ordered by one recorder mutex",
     "asynchronous re-processing of emitted messages is not part of these histories (recorder machines emit nothing)",
 ]
-DRIVER = ["harness/mcrew/driver_test.go", "harness/mcrew/timers_driver_test.go"]
+DRIVER = ["harness/mcrew/driver_test.go", "harness/mcrew/timers_driver_test.go", "harness/mcrew/system_driver_test.go"]
 
 
 def drive(binary, wd, mode, out, **env):
@@ -40,6 +40,10 @@ def run(pid, tier, seed, replay):
     rep = vlib.Report(pid)
     gen = dist = 0
     runs = []
+    if replay and json.load(open(replay)).get("kind") == "mcrew-system":
+        import system_checks
+        system_checks.mcrew_stage(pid, tier, seed, wd, rep, binary, acts=json.load(open(replay))["acts"])
+        return rep.finish()
     if replay:
         raise vlib.CannotRun("replay of C16 histories: re-run the schedule file named in the replay with VERIF_MODE=svc-sched")
     # (a) exhaustive exploration of the models: the repaired shape satisfies MemEqualsStore; the split shape yields the schedules
@@ -116,6 +120,13 @@ def run(pid, tier, seed, replay):
             c = json.loads(f.readline())
             samples.append({"source": name, "events": c["events"][:8]})
         log("  judged %s: %d histories, %d rejected" % (name, t["lines"], len(bad)))
+    # the whole host as one state machine (asynchronous re-processing, timers service, failing store)
+    import system_checks
+    si = system_checks.mcrew_stage(pid, tier, seed, wd, rep, binary)
+    gen += si["generated"]
+    dist += si["distinct"]
+    judged += si["lines"]
+    stats_all.update(si["stats"])
     rc = rep.finish()
     vlib.write_evidence(pid, tier, seed, {
         "states": max(1, dist), "transitions": max(1, gen), "traces_validated_against_impl": judged, "samples": samples,
